@@ -102,11 +102,12 @@ Definition l_is_send (n : node) (peer : nid) : node * option is_req :=
          end) with
   | None => (fail Panic n, None)
   | Some (s, offset) =>
-      let rest := skipn (N.to_nat offset) (s_data s) in
+      (* fix: D14 - one chunk (io.CopyN), not the rest of the file *)
+      let rest := firstn (N.to_nat snapshot_chunk_size) (skipn (N.to_nat offset) (s_data s)) in
       let q := {| is_leader := n_id n; is_term := n_term n; is_lii := s_index s; is_lit := s_term s;
                   is_conf := s_conf s; is_offset := offset; is_bytes := rest;
                   is_done := chunk_done (N.of_nat (length rest)) |} in
-      (set_follower n peer (f <| f_snap := Some (s, N.of_nat (length (s_data s))) |>), Some q)
+      (set_follower n peer (f <| f_snap := Some (s, N.min (offset + N.of_nat (length rest)) (N.of_nat (length (s_data s)))) |>), Some q)
   end.
 
 (* sendInstallSnapshot after the RPC; [resp = None] is a transport error *)
@@ -267,7 +268,7 @@ Definition lp_snapshot (n : node) : node :=
       match log_get (n_log n) (n_applied n) with
       | None => fail Fatal n
       | Some e =>
-          let s := {| s_index := e_index e; s_term := e_term e; s_conf := cc; s_data := fsm_snap (n_fsm n) |} in
+          let s := {| s_index := e_index e; s_term := e_term e; s_conf := cc; s_data := fsm_snap (n_pad n) (n_fsm n) |} in
           let n1 := close_snapshot n s in
           if e_index e <=? n_lii n1 then n1 else
           reset_snapshot_files (compact_log (n1 <| n_lii := e_index e |> <| n_lit := e_term e |>) (e_index e))
